@@ -929,3 +929,65 @@ Definition ok_resolve_name (gs : list gt_session) (tl : list (Z * list (Z * nat)
   | Some (Some s) => match ans with Some nm => str_eqb (s_name s) nm | None => false end
   | _ => true
   end.
+
+(* ------------------------------------------------------------------ PLT symbols of an ELF file *)
+(* utils/symbol.c load_elf_dynsymtab + load_dyn_symbol on x86_64 (entry size fixed to 16): one
+   symbol per .rela.plt relocation, in relocation order.  The three expressions of load_dyn_symbol
+   (is the dynsym a canonical PLT address?, canonical address + offset, previous + entry size) are
+   generated from the C text (UV.Gen.Kernels).
+   dynrel: name, st_value and st_shndx of the relocation's dynamic symbol. *)
+Record dynrel := mkRel { dr_name : str; dr_value : Z; dr_shndx : Z }.
+Record elfplt := mkElfPlt {
+  ep_vaddr0 : Z;              (* p_vaddr of the first PT_LOAD: 0 for PIE / shared objects, 0x400000 for a non-PIE *)
+  ep_plt : Z;                 (* sh_addr of .plt *)
+  ep_pltsec : option Z;       (* sh_addr of .plt.sec when present (IBT) *)
+  ep_rels : list dynrel
+}.
+Definition PLT_ENTSIZE : Z := 16.
+
+Fixpoint load_dyn_syms (offset prev : Z) (rels : list dynrel) : symtab :=
+  match rels with
+  | [] => []
+  | r :: more =>
+      match dr_name r with
+      | [] => load_dyn_syms offset prev more         (* unnamed symbol: no entry, prev_addr is not advanced *)
+      | _ :: _ =>
+          let a := if dyn_is_canonical (dr_value r) (dr_shndx r)
+                   then dyn_addr_canonical (dr_value r) offset
+                   else dyn_addr_next_slot prev PLT_ENTSIZE in
+          mkSym a PLT_ENTSIZE K_ST_PLT_FUNC (dr_name r) :: load_dyn_syms offset a more
+      end
+  end.
+
+(* adj: SYMTAB_FL_ADJ_OFFSET (record and the analysis commands), offset0: the caller's offset
+   (libmcount passes the load base without the flag) *)
+Definition plt_offset (adj : bool) (offset0 : Z) (e : elfplt) : Z :=
+  if adj then (offset0 - ep_vaddr0 e) mod W64 else offset0.
+Definition plt_prev0 (offset : Z) (e : elfplt) : Z :=
+  match ep_pltsec e with
+  | Some a => ((a + offset) mod W64 - PLT_ENTSIZE) mod W64      (* .plt.sec has no PLT0 *)
+  | None => (ep_plt e + offset) mod W64                         (* PLT0 is the "previous" entry of slot 0 *)
+  end.
+Definition load_elf_dynsymtab (adj : bool) (offset0 : Z) (e : elfplt) : symtab :=
+  let offset := plt_offset adj offset0 e in
+  sort_syms (load_dyn_syms offset (plt_prev0 offset e) (ep_rels e)).
+
+(* ground truth: link-time address of the PLT entry of relocation k *)
+Definition plt_slot (e : elfplt) (k : nat) : Z :=
+  match ep_pltsec e with
+  | Some a => a + PLT_ENTSIZE * Z.of_nat k
+  | None => ep_plt e + PLT_ENTSIZE * (Z.of_nat k + 1)
+  end.
+
+(* run-time checker: in a table loaded with ADJ_OFFSET the PLT entry named n of a file whose
+   PLT entries really are at [truth] (name, link-time address) sits at address - vaddr0 *)
+Definition ok_plt_entry (vaddr0 : Z) (truth : list (str * Z)) (s : sym) : bool :=
+  if s_type s =? K_ST_PLT_FUNC then
+    match find (fun p => str_eqb (fst p) (s_name s)) truth with
+    | Some (_, a) => (s_addr s =? a - vaddr0) && (s_size s =? PLT_ENTSIZE)
+    | None => true                  (* not a PLT slot symbol (GOT-only reference): no verdict *)
+    end
+  else true.
+Definition ok_plt_table (vaddr0 : Z) (truth : list (str * Z)) (tab : symtab) : bool :=
+  forallb (ok_plt_entry vaddr0 truth) tab &&
+  forallb (fun p => existsb (fun s => (s_type s =? K_ST_PLT_FUNC) && str_eqb (s_name s) (fst p)) tab) truth.
